@@ -47,9 +47,26 @@ def counters(ber, bler):
     return g(ber, "total_bits"), g(ber, "error_bits"), g(bler, "total_blocks"), g(bler, "error_blocks")
 
 
-def replay(hist, px, py, B, rows_choice):
+def _make_metrics(via, B, ber_kw=None):
+    """The two metric objects, built from the classes or by name through the metric registry. In the registry form a second pair with the
+    same configuration is created as well and fed an all-different batch: objects of one configuration must not share their counters."""
+    import kaira.metrics.signal  # noqa: F401  (registers the names)
+    from kaira.metrics.registry import MetricRegistry
     from kaira.metrics.signal import BitErrorRate, BlockErrorRate
-    ber, bler = BitErrorRate(), BlockErrorRate(block_size=B)
+    ber_kw = ber_kw or {}
+    if via == "class":
+        return BitErrorRate(**ber_kw), BlockErrorRate(block_size=B)
+    name = ("bler", "fer", "ser")[(B or 0) % 3]
+    ber, bler = MetricRegistry.create("ber", **ber_kw), MetricRegistry.create(name, block_size=B)
+    d1, d2 = MetricRegistry.create("ber", **ber_kw), MetricRegistry.create(name, block_size=B)
+    n = 8 * (B or 1)
+    d1.update(torch.zeros(2, n), torch.ones(2, n))
+    d2.update(torch.zeros(2, n), torch.ones(2, n))
+    return ber, bler
+
+
+def replay(hist, px, py, B, rows_choice, via="class"):
+    ber, bler = _make_metrics(via, B)
     for idx, (op, arg, tb, eb, tbl, ebl) in enumerate(hist):
         if op == "update":
             L = len(px[arg - 1])
@@ -133,8 +150,7 @@ def tv_events(rng, tier):
         bipolar = (o % 4 == 1) and not cplx
         if bipolar:
             dtype = rng.choice([torch.float32, torch.int64, torch.int8])
-        ber = BitErrorRate(threshold=rng.choice([0.0, 0.5])) if bipolar else BitErrorRate()
-        bler = BlockErrorRate(block_size=None if none_mode else B)
+        ber, bler = _make_metrics("registry" if o % 3 == 2 else "class", None if none_mode else B, {"threshold": rng.choice([0.0, 0.5])} if bipolar else None)
         tid += 1
         evs.append({"ev": "New", "tid": tid})
         hl = rng.choice([5, 20, 60, 200]) if tier == "thorough" else rng.choice([5, 20, 60])
@@ -266,7 +282,7 @@ def run(run):
                 def rows_choice(L, i=i, B=B):
                     c = [rws for rws in (1, 2, 3) if L % (rws * B) == 0]
                     return c[i % len(c)]
-                d = replay(h, X, Y, B, rows_choice)
+                d = replay(h, X, Y, B, rows_choice, via=("registry" if i % 5 == 4 else "class"))
                 run.traces += 1
                 run.case((pool, tuple((o[0], o[1]) for o in h)), nontrivial=any(o[0] == "update" for o in h))
                 if d and not bad:
